@@ -331,6 +331,13 @@ class Run:
 
     def failure(self, rec):
         """Classify one failing record (dict). Known findings are counted, others are violations."""
+        # r2d2 (the SQLite connection pool of the MBTiles reader / writer) gives up after 30 s of waiting for a connection: that
+        # is the load of this machine, never a property of the code under test -> a tool error, not a verdict
+        try:
+            if "timed out waiting for connection" in json.dumps(rec)[:20000]:
+                raise ToolError("environment: an SQLite connection pool timed out (machine overloaded); not a verdict")
+        except (TypeError, ValueError):
+            pass
         f = match_known(self.prop, rec, self.known)
         if f:
             k = f["id"]
